@@ -188,6 +188,8 @@ def run(res, args):
     gen.regenerate_all()
     common.coq_make()
     common.standard_proof_cov(res, "C20", THEOREMS)
+    from lib import apigen
+    apigen.api_obligations(res, "C20")
     common.build_ocaml()
     build_vecli()
     t = apicases.tables()
